@@ -31,6 +31,8 @@ type UChord struct {
 type Dict struct {
 	AttrFiles  [][]UAttr  `json:"attr_files"`
 	ChordFiles [][]UChord `json:"chord_files"`
+	BlankAttr  *string    `json:"blank_attr,omitempty"`  // one more --attr file that defines nothing: its whole content (empty, blank lines, comments, [])
+	BlankChord *string    `json:"blank_chord,omitempty"` // the same for --chord
 	RevNames   bool       `json:"rev_names,omitempty"` // the files are named so that the order on the command line is the reverse of the alphabetical order of their paths
 }
 
@@ -102,6 +104,14 @@ func (d Dict) filesAndArgs() (map[string]string, []string) {
 		n := d.fileName("chord", i)
 		files[n] = chordYAML(f)
 		cn = append(cn, "@"+n)
+	}
+	if d.BlankAttr != nil {
+		files["attr-later.yml"] = *d.BlankAttr
+		an = append(an, "@attr-later.yml")
+	}
+	if d.BlankChord != nil {
+		files["chord-later.yml"] = *d.BlankChord
+		cn = append([]string{"@chord-later.yml"}, cn...)
 	}
 	// one flag with a comma list, or repeated flags: alternate
 	if len(an) > 0 {
@@ -469,7 +479,7 @@ func dumpFiles(files map[string]string) string {
 
 func init() { reg("c16", checkC16) }
 
-var badDictKinds = []string{"dangling-attribute", "dangling-extends", "cycle-1", "cycle-2", "cycle-3", "lasso-1", "lasso-2", "lasso-display", "cycle-via-display", "extends-names-an-attribute", "attribute-names-a-chord", "attribute-names-a-display", "dangling-extends-name-is-display", "dangling-attribute-name-is-display", "cycle-name-is-display", "unnamed-chord", "unnamed-attribute", "chord-without-display", "alias-without-display"}
+var badDictKinds = []string{"dangling-attribute", "dangling-extends", "cycle-1", "cycle-2", "cycle-3", "lasso-1", "lasso-2", "lasso-display", "cycle-via-display", "extends-names-an-attribute", "attribute-names-a-chord", "attribute-names-a-display", "dangling-extends-name-is-display", "dangling-attribute-name-is-display", "cycle-name-is-display", "unnamed-chord", "unnamed-attribute", "chord-without-display", "alias-without-display", "unnamed-chord-before-others", "unnamed-attribute-before-others", "shadowed-dangling-attribute", "shadowed-dangling-extends"}
 
 // badDictExtra returns the entries that make a dictionary inconsistent in the given way.
 func badDictExtra(bad string) ([]UChord, []UAttr) {
@@ -510,6 +520,14 @@ func badDictExtra(bad string) ([]UChord, []UAttr) {
 		return []UChord{{Name: "NoDisplay", Display: "", Attrs: []string{"Perfect1", "Major2", "Perfect5"}}}, nil
 	case "alias-without-display":
 		return []UChord{{Name: "NoDisplayAlias", Display: "", Extends: "DominantSeventh"}}, nil
+	case "unnamed-chord-before-others": // the verdict on a file is not the verdict on its last entry
+		return []UChord{{Name: "", Display: "noname", Attrs: []string{"Perfect1", "Minor2"}}, {Name: "FineAfter", Display: "fineafter", Attrs: []string{"Perfect1", "Perfect5"}}}, nil
+	case "unnamed-attribute-before-others":
+		return nil, []UAttr{{Name: "", IV: IV{3, int(theory.Major)}}, {Name: "FineAttrAfter", IV: IV{6, int(theory.Minor)}}}
+	case "shadowed-dangling-attribute": // the name is defined again later, but the first entry stays reachable by its own display symbol
+		return []UChord{{Name: "TwiceDefined", Display: "tw1", Attrs: []string{"Perfect1", "NoSuchAttribute"}}, {Name: "TwiceDefined", Display: "tw2", Attrs: []string{"Perfect1", "Major3"}}}, nil
+	case "shadowed-dangling-extends":
+		return []UChord{{Name: "TwiceDefined", Display: "tw1", Attrs: []string{"Perfect1"}, Extends: "NoSuchChord"}, {Name: "TwiceDefined", Display: "tw2", Attrs: []string{"Perfect1", "Perfect4"}}}, nil
 	case "unnamed-attribute":
 		return nil, []UAttr{{Name: "", IV: IV{3, int(theory.Major)}}}
 	}
@@ -612,6 +630,15 @@ func genDict(t *rapid.T) (Dict, []string) {
 		}
 	}
 	d.RevNames = coin(t, "file-names-in-reverse-alphabetical-order", 40)
+	blanks := []string{"", "\n", "# attributes to come\n", "# one\n# two\n\n", "[]\n", "---\n", "--- []\n"}
+	if coin(t, "an-attr-file-that-defines-nothing", 10) {
+		b := rapid.SampledFrom(blanks).Draw(t, "blank-attr")
+		d.BlankAttr = &b
+	}
+	if coin(t, "a-chord-file-that-defines-nothing", 10) {
+		b := rapid.SampledFrom(blanks).Draw(t, "blank-chord")
+		d.BlankChord = &b
+	}
 	// split over files
 	split := func(n int) []int {
 		if n == 0 {
